@@ -1,7 +1,8 @@
 """C18 - SimPy layer: events fire once; processes resume with the right value and time."""
 import itertools
 import usim
-from usim import Scope, time, Flag
+from usim import Scope, time, Flag, until as usim_until
+usim_Scope = Scope
 import usim.py as simpy
 from usim.py.exceptions import Interrupt
 
@@ -218,7 +219,7 @@ class Interp:
                     key = ('n',) + owner
                     if op[1] == 'delay':
                         s.timers.append([s.now + op[2], key, True, 'NATIVE'])
-                    elif op[1] == 'coro':
+                    elif op[1] in ('coro', 'scoro'):
                         s.timers.append([s.now + op[2], key, True, op[3]])
                     elif op[1] == 'flag':
                         key = ('f', op[2])
@@ -501,6 +502,17 @@ def run_real(program):
                                 return v
                             v = yield coro()
                             obs[name].append((env.now, ('val', v)))
+                        elif op[1] == 'scoro':
+                            # a native activity that waits inside scopes of its own (an until block and a scope with a child)
+                            async def scoro(d=op[2], v=op[3]):
+                                async def sleeper():
+                                    await (time + d)
+                                async with usim_until(time + 50):
+                                    async with usim_Scope() as sc:
+                                        sc.do(sleeper())
+                                return v
+                            v = yield scoro()
+                            obs[name].append((env.now, ('val', v)))
                     elif k == 'return':
                         return op[1]
                     elif k == 'raise':
@@ -635,7 +647,7 @@ def cases(tier):
         'irq': ([['timeout', 1, 'a'], ['timeout', 2, 'b'], ['wait', 'e0'], ['interrupt', 'OTHER', 'c1'], ['interrupt', 'OTHER', 'c2'],
                  ['succeed', 'e0', 'v'], ['timeout', 0, 'z']], [None, 2]),
         'cond': ([['allof', [['t', 1, 'a'], ['e', 'e0']]], ['anyof', [['t', 1, 'a'], ['t', 2, 'b']]], ['anyof', [['e', 'e0'], ['e', 'e1']]],
-                  ['allof', [['e', 'e0'], ['e', 'e1']]], ['anyof', []], ['timeout', 1, 'a'], ['succeed', 'e0', 'v'], ['succeed', 'e1', 'w'],
+                  ['allof', [['e', 'e0'], ['e', 'e1']]], ['allof', [['e', 'e0'], ['e', 'e1'], ['e', 'e0']]], ['anyof', []], ['timeout', 1, 'a'], ['succeed', 'e0', 'v'], ['succeed', 'e1', 'w'],
                   ['fail', 'e1', 'x'],
                   ['allof', [['c', 'anyof', [['t', 1, 'a'], ['t', 2, 'b']]], ['t', 3, 'c']]],
                   ['anyof', [['c', 'allof', [['t', 1, 'a'], ['e', 'e0']]], ['t', 2, 'c']]],
@@ -644,7 +656,7 @@ def cases(tier):
                   ['interrupt', 'OTHER', 'c']], [None, ['p', 'p0'], 0]),
         'chain': ([['wait', 'e0'], ['wait', 'e1'], ['succeed', 'e0', 'v'], ['fail', 'e0', 'x'], ['timeout', 1, 'a'], ['waitraise', 'e1']],
                   [None, ['e', 'e1']]),
-        'native': ([['native', 'delay', 1], ['native', 'flag', 'f0'], ['native', 'coro', 1, 5], ['timeout', 1, 'a'], ['wait', 'e0'],
+        'native': ([['native', 'delay', 1], ['native', 'flag', 'f0'], ['native', 'coro', 1, 5], ['native', 'scoro', 1, 6], ['timeout', 1, 'a'], ['wait', 'e0'],
                     ['succeed', 'e0', 'v'], ['interrupt', 'OTHER', 'c']], [None, 2]),
     }
     out = []
@@ -667,6 +679,12 @@ def cases(tier):
                     late['initial'] = 5
                     late['until'] = (u + 5) if isinstance(u, (int, float)) else u
                     out.append(late)
+                    if isinstance(u, (int, float)) and u:
+                        # an absolute end date without exact binary representation, reached from such a start time
+                        frac = dict(base)
+                        frac['initial'] = 0.2
+                        frac['until'] = 0.9 if u == 2 else u + 0.7
+                        out.append(frac)
                 if fam in ('events', 'chain') and u is None and any(op[0] == 'fail' for op in p0 + p1):
                     sup = dict(base)
                     sup['defuse'] = ['e0', 'e1']
